@@ -3,15 +3,16 @@
 // trace consumed by the extracted model (family "registry").
 //
 // op lines (inputs of the model)              obs lines (predicted by the model)
-//   init <variant> <ROW> <COL>                  -
-//   add <id> <fd>                               -            (obs add panic on a Go panic)
-//   del <id>                                    -            (obs del panic on a Go panic)
-//   get <fd>                                    obs get <id | -1>
-//   count                                       obs count <n>
-//   iter <m> <k> <lim>                          obs iter <visited ids, sorted>
-//        visitor: delConn the visited conn iff m>0 && fd mod m == k (m=1,k=0: shutdown
-//        pattern, m=0: read-only); return false once lim conns were visited (lim<0: never)
-//   pos <id>                                    obs pos <row> <col> <fd>   (the conn's own GFD)
+//
+//	init <variant> <ROW> <COL>                  -
+//	add <id> <fd>                               -            (obs add panic on a Go panic)
+//	del <id>                                    -            (obs del panic on a Go panic)
+//	get <fd>                                    obs get <id | -1>
+//	count                                       obs count <n>
+//	iter <m> <k> <lim>                          obs iter <visited ids, sorted>
+//	     visitor: delConn the visited conn iff m>0 && fd mod m == k (m=1,k=0: shutdown
+//	     pattern, m=0: read-only); return false once lim conns were visited (lim<0: never)
+//	pos <id>                                    obs pos <row> <col> <fd>   (the conn's own GFD)
 //
 // The direct oracle is a Go map fd -> identity.
 package main
@@ -31,18 +32,18 @@ var w *tr.Writer
 const variant = gnet.VerifRegistryVariant
 
 type state struct {
-	r      *gnet.VerifRegistry
-	ref    map[int]int // fd -> identity of the live connection (the spec)
-	fdOf   map[int]int // identity -> fd, every connection object ever created
-	ever   []int       // every fd ever used, in order of first use
-	everIn map[int]bool
-	order  []int  // identities in creation order (live and dead)
-	hist   string // "clean", "partial-iterate" (finding class), "ill-formed" (oracle off)
-	failed bool
-	dead   bool // a Go panic happened: the case is over
-	bulk   bool
-	muts   int
-	lastDelFd int
+	r           *gnet.VerifRegistry
+	ref         map[int]int // fd -> identity of the live connection (the spec)
+	fdOf        map[int]int // identity -> fd, every connection object ever created
+	ever        []int       // every fd ever used, in order of first use
+	everIn      map[int]bool
+	order       []int  // identities in creation order (live and dead)
+	hist        string // "clean", "partial-iterate" (finding class), "ill-formed" (oracle off)
+	failed      bool
+	dead        bool // a Go panic happened: the case is over
+	bulk        bool
+	muts        int
+	lastDelFd   int
 	haveLastDel bool
 }
 
@@ -627,6 +628,10 @@ func (g *gen) bigCase(n int, dels int) {
 		g.aroundBoundary(b)
 		g.checkpoint(false)
 	}
+	// the shutdown pattern (visit everything, remove every visited connection) with the population
+	// spread over more than one row
+	g.toPopulation((len(s.ref)/gnet.VerifRegistryColMax)*gnet.VerifRegistryColMax + g.rnd.Range(1, 40))
+	w.Tag("shutdown-across-rows")
 	g.iter(0, 0, -1)
 	g.iter(1, 0, -1)
 	g.checkpoint(false)
@@ -634,6 +639,40 @@ func (g *gen) bigCase(n int, dels int) {
 		g.add(g.fdBase + 7*i)
 	}
 	g.del()
+	g.checkpoint(true)
+}
+
+// burstDrain: a burst of n registrations followed by a complete drain, one removal at a time (any
+// shape), with a checkpoint every few hundred removals and around every power-of-two fraction of
+// the peak: a registry that reorganises itself when it grows or shrinks must stay a faithful map
+func (g *gen) burstDrain(n int) {
+	s := g.s
+	s.bulk = true
+	for i := 0; i < n; i++ {
+		g.add(g.fdBase + i)
+	}
+	s.bulk = false
+	s.audit()
+	w.Tag("burst-drain")
+	w.Hist(fmt.Sprintf("burst-%dk", n/1024))
+	g.checkpoint(false)
+	marks := map[int]bool{}
+	for f := n / 2; f >= 1; f /= 2 {
+		marks[f], marks[f-1], marks[f+1] = true, true, true
+	}
+	for k := 1; len(s.ref) > 0 && !s.failed && !s.dead; k++ {
+		fd, _ := g.victim()
+		s.exec(tr.L("del", tr.I(fd)))
+		s.exec(tr.L("get", tr.I(fd))) // the removed descriptor is gone at once
+		if marks[len(s.ref)] || k%401 == 0 {
+			g.checkpoint(false)
+		}
+	}
+	g.checkpoint(false)
+	g.iter(0, 0, -1)
+	for i := 0; i < 20; i++ {
+		g.add(g.freshFd())
+	}
 	g.checkpoint(true)
 }
 
@@ -676,6 +715,16 @@ func main() {
 		t := rnd.Range(10, 300)
 		g.randomCase(t, t+rnd.Range(20, 400), i%6 == 0, i%13 == 5)
 		w.Hist(fmt.Sprintf("population-%03d", t/50*50))
+		w.End()
+	}
+	// bursts of a few thousand connections, drained completely
+	nBurst := 2
+	if thorough {
+		nBurst = 12
+	}
+	for i := 0; i < nBurst; i++ {
+		g := mk("burst")
+		g.burstDrain(rnd.Pick([]int{1024, 1500, 2048, 4096, 5000}))
 		w.End()
 	}
 	// crossing the 65536-entry row boundary (one real case in the quick tier)
